@@ -45,7 +45,7 @@ static const size_t stk_sz[] = { 0, 0, 16384, 24576, 32768, 65536, 69632, 131072
 #define NSTKSZ (int)(sizeof stk_sz / sizeof stk_sz[0])
 
 typedef struct tnode {
-  int id, kind, k, stk, detach_attr, parent_first, canary_len;
+  int id, kind, k, stk, detach_attr, parent_first, canary_len; size_t cd;
   volatile int release, started, ended;
   int reaped, detached_called, handle_valid, is_grandchild;
   myth_thread_t h;
@@ -72,6 +72,13 @@ extern int (*volatile myth_verif_clock_fn)(struct timespec *);
 
 static void * expected(tnode_t * n) { return (void *)(uintptr_t)(0x9000 + n->id * 13); }
 static void * gbody(void * a);
+static uint8_t cd_pat[128]; static long stat_cd;
+static void cd_verify(size_t want, int id, const char * when) {
+  if (!want) return;
+  size_t sz = myth_wsapi_get_hint_size(0); uint8_t * p = myth_wsapi_get_hint_ptr(0);
+  if (sz != want || !p) mt_fail("thread %d created with %zu bytes of custom data: size %zu pointer %p (%s)", id, want, sz, (void *)p, when);
+  for (size_t i = 0; i < want; i++) if (p[i] != cd_pat[i]) mt_fail("thread %d: custom data byte %zu differs %s", id, i, when);
+}
 static volatile long stat_min_room = 1 << 30;
 
 static void canary_check(tnode_t * n, volatile uint8_t * buf) {
@@ -119,7 +126,9 @@ static void * gbody(void * a) {
   if (painted) memset(plo, 0xEE, (size_t)(sp0 - 512 - plo));
   /* canary buffer on this thread's own stack */
   volatile uint8_t * buf = __builtin_alloca((size_t)n->canary_len + 16);
+  cd_verify(n->cd, n->id, "when the thread starts");
   void * rv = body_main(n, buf);
+  cd_verify(n->cd, n->id, "when the thread function ends");
   if (painted) {
     long room = 0; while (plo + room < sp0 - 512 && (uint8_t)plo[room] == 0xEE) room++;
     long cur = stat_min_room; while (room < cur && !__sync_bool_compare_and_swap(&stat_min_room, cur, room)) cur = stat_min_room;
@@ -155,6 +164,10 @@ static void do_create(tnode_t * n) {
     if (stk_sz[n->stk]) myth_thread_attr_setstacksize(&at, stk_sz[n->stk]); else if (n->stk == 0) at.stacksize = 0;   /* index 1: keep attr_init's default size (custom-size path) */
     if (n->detach_attr) myth_thread_attr_setdetachstate(&at, 1);
     at.child_first = !n->parent_first;
+    /* custom data (work-stealing hint): copied to the top of the new thread's stack, next to the word that records the
+       size of the stack block */
+    n->cd = (size_t[]){ 0, 0, 12, 28, 100, 8 }[(n->id + n->stk) % 6];
+    if (n->cd) { if (!cd_pat[1]) for (int i = 0; i < 128; i++) cd_pat[i] = (uint8_t)(i * 5 + 1); at.custom_data = cd_pat; at.custom_data_size = n->cd; stat_cd++; }
     ap = &at;
   }
   int r = myth_create_ex(&n->h, ap, gbody, n);
@@ -353,6 +366,7 @@ static void run_history(mt_case * c, int prop) {
   if (stat_min_room < (1 << 30)) mt_stat("min_stack_room", stat_min_room);
   if (getenv("MT_ROOM_FAIL") && stat_min_room < atol(getenv("MT_ROOM_FAIL"))) mt_fail("room %ld", (long)stat_min_room);
   if (stat_min_room < 768) mt_reject("a thread came within 768 bytes of the end of its stack: the harness frames need more than this stack class offers");
+  if (stat_cd) mt_label("custom_data_attribute");
   mt_stat("threads", nT); mt_stat("fresh_records", fd); mt_stat("max_owned_records", md); mt_stat("fresh_stacks", fs); mt_stat("max_owned_stacks", ms);
   mt_stat("cross_worker_frees", cf); mt_stat("recycled", rc); mt_stat("late_joins", stat_late_join); mt_stat("unreaped", unreaped);
   mt_stat("tryjoin_busy", stat_tryjoin_busy); mt_stat("tryjoin_ok", stat_tryjoin_ok); mt_stat("timed_timeout", stat_timed_to); mt_stat("timed_ok", stat_timed_ok);
